@@ -33,24 +33,26 @@ Proof.
 Qed.
 Print Assumptions C12_swift_flag_any_state.
 
-(* Scala: for every program and configuration outside the class C12-scala-unsigned-depth, every
-   UByte/UShort/UInt/ULong the declarations spell (an unsigned integer at any depth) is defined by
-   the alias block. *)
+(* Scala: for every program and configuration, every UByte/UShort/UInt/ULong the declarations spell
+   (an unsigned integer at any depth) is defined by the alias block.  No carve-out: the class
+   C12-scala-unsigned-depth is fixed in /repo (unsigned_integer_used scans recursively). *)
 Theorem C12_scala :
   forall (uc : unicode) (cfg : sc_config) (pd : parsed) (uses defs : list str),
-    c12_sc_observe uc cfg pd = Ok (uses, defs) -> c12_sc_dom pd = true -> c12_sc_known cfg pd = None ->
+    c12_sc_observe uc cfg pd = Ok (uses, defs) -> c12_sc_dom pd = true ->
     c12_good uses defs = true.
 Proof. exact Proofs.C12.c12_scala. Qed.
 Print Assumptions C12_scala.
 
-(* the class is inhabited: `type Grid = Vec<Vec<u16>>` spells UShort, the scan sees nothing *)
-Theorem C12_scala_unsigned_depth_refuted :
-  c12_sc_known Proofs.C12_Scala.c12_sc_cfg0 Proofs.C12_Scala.c12_sc_witness = Some "C12-scala-unsigned-depth"%string /\
+(* regression pin of the fixed finding: `type Grid = Vec<Vec<u16>>` spells UShort two levels deep; the
+   scan sees it and the file now has the alias block *)
+Theorem C12_scala_unsigned_depth_fixed :
   c12_sc_dom Proofs.C12_Scala.c12_sc_witness = true /\
-  c12_sc_observe uc_exec Proofs.C12_Scala.c12_sc_cfg0 Proofs.C12_Scala.c12_sc_witness = Ok ([lit "UShort"], []) /\
-  c12_good [lit "UShort"] [] = false.
-Proof. exact Proofs.C12.c12_scala_refuted. Qed.
-Print Assumptions C12_scala_unsigned_depth_refuted.
+  c12_sc_scan Proofs.C12_Scala.c12_sc_witness = true /\
+  c12_sc_observe uc_exec Proofs.C12_Scala.c12_sc_cfg0 Proofs.C12_Scala.c12_sc_witness =
+    Ok ([lit "UShort"], [lit "UByte"; lit "UShort"; lit "UInt"; lit "ULong"]) /\
+  c12_good [lit "UShort"] [lit "UByte"; lit "UShort"; lit "UInt"; lit "ULong"] = true.
+Proof. exact Proofs.C12.c12_scala_unsigned_depth_fixed. Qed.
+Print Assumptions C12_scala_unsigned_depth_fixed.
 
 (* Go: for every program, and every configuration without uppercase_acronyms (c12_go_dom; configurations
    with acronyms: C12_go_acronyms below; it also
